@@ -66,8 +66,6 @@ func Load(patterns []string, options ...func(c *packages.Config)) (*Universe, er
 			}
 		}
 
-		pkg := newPkg(p, u)
-
 		for k := range p.Imports {
 			importedPkg := p.Imports[k]
 
@@ -75,6 +73,9 @@ func Load(patterns []string, options ...func(c *packages.Config)) (*Universe, er
 				register(importedPkg)
 			}
 		}
+
+		// after its imports are registered, so that Imports() can resolve them
+		pkg := newPkg(p, u)
 
 		u.pkgs[p.PkgPath] = pkg
 
